@@ -36,9 +36,16 @@ pub type ParseResult<T> = Result<T, ParserError>;
 
 /// Main parser implementation.
 /// Uses a pratt parsing approach to parse sql expressions into AST nodes.
+/// Deepest expression tree / subquery nesting the parser accepts. Every level of the tree costs
+/// stack in the parser, binder, optimizer and evaluator alike, and an operator chain
+/// (`a OR b OR c ...`) builds a tree as deep as it is long.
+const MAX_NESTING_DEPTH: usize = 80;
+
 pub struct Parser {
     lexer: Lexer,
     current_token: Token,
+    /// Current recursion depth of the expression / subquery parser.
+    depth: usize,
 }
 
 impl Parser {
@@ -48,7 +55,20 @@ impl Parser {
         Parser {
             lexer,
             current_token,
+            depth: 0,
         }
+    }
+
+    /// Enters one nesting level; fails instead of recursing without bound.
+    fn enter_nesting(&mut self) -> ParseResult<()> {
+        if self.depth >= MAX_NESTING_DEPTH {
+            return Err(ParserError::InvalidExpression(format!(
+                "nesting deeper than {} levels",
+                MAX_NESTING_DEPTH
+            )));
+        }
+        self.depth += 1;
+        Ok(())
     }
 
     fn next_token(&mut self) {
@@ -88,6 +108,14 @@ impl Parser {
     /// Obtains the expression binding power using a Pratt Parsing approach.
     /// I recommend this read on Pratt Parsing: https://matklad.github.io/2020/04/13/simple-but-powerful-pratt-parsing.html
     fn parse_expr_bp(&mut self, min_bp: u8) -> ParseResult<Expr> {
+        let saved_depth = self.depth;
+        self.enter_nesting()?;
+        let result = self.parse_expr_bp_nested(min_bp);
+        self.depth = saved_depth;
+        result
+    }
+
+    fn parse_expr_bp_nested(&mut self, min_bp: u8) -> ParseResult<Expr> {
         let mut lhs = self.parse_prefix()?;
 
         while let Some((l_bp, r_bp)) = self.infix_binding_power() {
@@ -95,6 +123,8 @@ impl Parser {
                 break;
             }
 
+            // Every operator applied to `lhs` makes the resulting tree one level deeper.
+            self.enter_nesting()?;
             lhs = self.parse_infix(lhs, r_bp)?;
         }
 
@@ -1172,6 +1202,13 @@ impl Parser {
     /// LIMIT n;
     /// ```
     fn parse_select_statement(&mut self) -> ParseResult<SelectStatement> {
+        self.enter_nesting()?;
+        let result = self.parse_select_statement_nested();
+        self.depth -= 1;
+        result
+    }
+
+    fn parse_select_statement_nested(&mut self) -> ParseResult<SelectStatement> {
         self.expect(Token::Select)?;
 
         let distinct = self.consume_if(&Token::Distinct);
